@@ -103,6 +103,8 @@ def install_remove_attacker(reg):
             ('progress2', FA([n], z3.Implies(is_node(o, G, n), cb(h, n, a) == reached(o, a, n) - z3.Select(c.done, VRef(n))), [cb(h, n, a)])),
             ('own', z3.And(*[f for nm, f in wf_graph(h, G, parts=('W0',)) if 'own' in nm])),
             ('copy-fresh', c.it >= o.alloc),
+            ('cb-elems', FA([n, z3.Const('v!ri', Val)], z3.Implies(z3.And(is_node(o, G, n), h.bag(h.f('compromised_by', n), z3.Const('v!ri', Val)) > 0),
+                                                                  is_VRef(z3.Const('v!ri', Val))), [h.bag(h.f('compromised_by', n), z3.Const('v!ri', Val))])),
             ('reached-nonneg', FA([z3.Const('v!ri', Val)], h.bag(R, z3.Const('v!ri', Val)) >= 0, [h.bag(R, z3.Const('v!ri', Val))])),
             ('reached-elems', FA([z3.Const('v!ri', Val)], z3.Implies(h.bag(R, z3.Const('v!ri', Val)) > 0,
                                  z3.And(is_VRef(z3.Const('v!ri', Val)), is_node(o, G, v_a(z3.Const('v!ri', Val))))), [h.bag(R, z3.Const('v!ri', Val))])),
@@ -277,6 +279,19 @@ def install_add_attacker(reg):
                                *[h.arr[x] == o.arr[x] for x in DICT_ARRAYS])),
             ('frame.other-fields', unchanged_lists_by_field(o, h, ('reached_attack_steps', 'compromised_by'))),
             ('frame.locals', z3.And(list_unchanged(c.hl, h, rn), list_unchanged(c.hl, h, en))),
+            # precise frame: the only pre-state lists that move are the attacker's reached list and compromised_by lists
+            ('frame.precise', z3.And(
+                FA([A('l!fp')], z3.Implies(z3.And(A('l!fp') >= 0, A('l!fp') < o.alloc, A('l!fp') != R,
+                                                  z3.Or(o.own_obj(A('l!fp')) == -1, o.own_fld(A('l!fp')) != field_id('compromised_by'))),
+                                           h.bagof(A('l!fp')) == o.bagof(A('l!fp'))), [h.bagof(A('l!fp'))]),
+                FA([A('l!fp')], z3.Implies(z3.And(A('l!fp') >= 0, A('l!fp') < o.alloc, A('l!fp') != R,
+                                                  z3.Or(o.own_obj(A('l!fp')) == -1, o.own_fld(A('l!fp')) != field_id('compromised_by'))),
+                                           h.len(A('l!fp')) == o.len(A('l!fp'))), [h.len(A('l!fp'))]),
+                FA([A('l!fp')], z3.Implies(z3.And(A('l!fp') >= 0, A('l!fp') < o.alloc, A('l!fp') != R,
+                                                  z3.Or(o.own_obj(A('l!fp')) == -1, o.own_fld(A('l!fp')) != field_id('compromised_by'))),
+                                           z3.Select(h.arr['L_at'], A('l!fp')) == z3.Select(o.arr['L_at'], A('l!fp'))), [z3.Select(h.arr['L_at'], A('l!fp'))]))),
+            ('cb-elems', FA([n, v], z3.Implies(z3.And(is_node(o, G, n), h.bag(h.f('compromised_by', n), v) > 0), is_VRef(v)),
+                            [h.bag(h.f('compromised_by', n), v)])),
             ('frame.other-reached', FA([b], z3.Implies(is_att(o, G, b), list_unchanged(o, h, o.f('reached_attack_steps', b))),
                                        [o.f('reached_attack_steps', b)])),
             ('frame.other-compromisers', FA([n, b], z3.Implies(z3.And(is_node(o, G, n), b != a), cb(h, n, b) == cb(o, n, b)), [cb(h, n, b)])),
@@ -403,6 +418,7 @@ def install_remove_node(reg):
                                             z3.And(reached(h, a, m) == reached(o, a, m), cb(h, m, a) == cb(o, m, a))), [reached(h, a, m)])),
             ('others2', FA([a, m], z3.Implies(z3.And(is_att(o, G, a), is_node(o, G, m), m != x),
                                              z3.And(reached(h, a, m) == reached(o, a, m), cb(h, m, a) == cb(o, m, a))), [cb(h, m, a)])),
+            ('others-reached', FA([a, m], z3.Implies(z3.And(is_att(o, G, a), m != x), reached(h, a, m) == reached(o, a, m)), [reached(h, a, m)])),
             ('graph-lists', z3.And(list_unchanged(o, h, nodes_l(o, G)), list_unchanged(o, h, atts_l(o, G)))),
             ('elems', FA([a, z3.Const('v!r2', Val)], z3.Implies(z3.And(is_att(o, G, a), h.bag(h.f('reached_attack_steps', a), z3.Const('v!r2', Val)) > 0),
                                                                 is_VRef(z3.Const('v!r2', Val))), [h.bag(h.f('reached_attack_steps', a), z3.Const('v!r2', Val))])),
@@ -414,6 +430,7 @@ def install_remove_node(reg):
     def compromise_cleared(o, h, G, x):
         a, m = A('a!cc'), A('m!cc')
         return z3.And(
+            FA([a, m], z3.Implies(z3.And(is_att(o, G, a), m != x), reached(h, a, m) == reached(o, a, m)), [reached(h, a, m)]),
             FA([a], z3.Implies(is_att(o, G, a), z3.And(reached(h, a, x) == 0, cb(h, x, a) == 0)), [reached(h, a, x)]),
             FA([a, m], z3.Implies(z3.And(is_att(o, G, a), is_node(o, G, m), m != x),
                                   z3.And(reached(h, a, m) == reached(o, a, m), cb(h, m, a) == cb(o, m, a))), [reached(h, a, m)]),
@@ -432,8 +449,9 @@ def install_remove_node(reg):
                                  FA([l], z3.Implies(z3.And(l >= 0, l < c.hl.alloc), h.len(l) == c.hl.len(l)), [h.len(l)]),
                                  FA([l], z3.Implies(z3.And(l >= 0, l < c.hl.alloc), z3.Select(h.arr['L_at'], l) == z3.Select(c.hl.arr['L_at'], l)),
                                     [z3.Select(h.arr['L_at'], l)]))),
-            ('old-own', FA([l], z3.Implies(z3.And(l >= 0, l < c.hl.alloc), z3.And(h.own_obj(l) == c.hl.own_obj(l), h.own_fld(l) == c.hl.own_fld(l))),
-                           [h.own_obj(l)])),
+            ('old-own', z3.And(FA([l], z3.Implies(z3.And(l >= 0, l < c.hl.alloc), z3.And(h.own_obj(l) == c.hl.own_obj(l), h.own_fld(l) == c.hl.own_fld(l))),
+                                  [h.own_obj(l)]),
+                               FA([l], z3.Implies(z3.And(l >= 0, l < c.hl.alloc), h.own_fld(l) == c.hl.own_fld(l)), [h.own_fld(l)]))),
             ('before', z3.And(edges_detached(o, c.hl, G, x), compromise_cleared(o, c.hl, G, x), own_all(c.hl, G),
                               list_unchanged(o, c.hl, nodes_l(o, G)), list_unchanged(o, c.hl, atts_l(o, G)), DICTS_SAME(o, c.hl))),
             ('done', FA([a, m], z3.Implies(z3.And(is_att(o, G, a), z3.Select(c.done, VRef(a)) > 0),
